@@ -21,6 +21,11 @@ type stubPos struct {
 	byChain map[string][]sdk.Address
 	// reference world: address(string) -> validator; absent = not found
 	vals map[string]nodesTypes.Validator
+	// optional split of the two worlds by ctx height (C33): a ctx at startHeight sees startVals / byChain, any
+	// other ctx sees vals / byChainLater. startHeight == 0: one world.
+	startHeight  int64
+	startVals    map[string]nodesTypes.Validator
+	byChainLater map[string][]sdk.Address
 	// recorded effects
 	rewards []string
 	burns   []string
@@ -43,7 +48,11 @@ func (s *stubPos) RewardForRelaysPerChain(ctx sdk.Ctx, chain string, relays sdk.
 func (s *stubPos) GetStakedTokens(ctx sdk.Ctx) sdk.BigInt { return sdk.ZeroInt() }
 func (s *stubPos) Validator(ctx sdk.Ctx, addr sdk.Address) nodesexported.ValidatorI {
 	s.calls++
-	v, ok := s.vals[addr.String()]
+	world := s.vals
+	if s.startHeight != 0 && ctx.BlockHeight() == s.startHeight {
+		world = s.startVals
+	}
+	v, ok := world[addr.String()]
 	if !ok {
 		return nil // untyped nil interface, exactly as the nodes keeper returns for a missing validator
 	}
@@ -53,15 +62,18 @@ func (s *stubPos) TotalTokens(ctx sdk.Ctx) sdk.BigInt { return sdk.ZeroInt() }
 func (s *stubPos) BurnForChallenge(ctx sdk.Ctx, challenges sdk.BigInt, address sdk.Address) {
 	s.burns = append(s.burns, fmt.Sprintf("%s:%s", address.String(), challenges.String()))
 }
-func (s *stubPos) JailValidator(ctx sdk.Ctx, addr sdk.Address)                     {}
-func (s *stubPos) AllValidators(ctx sdk.Ctx) []nodesexported.ValidatorI          { return nil }
-func (s *stubPos) GetStakedValidators(ctx sdk.Ctx) []nodesexported.ValidatorI    { return nil }
-func (s *stubPos) BlocksPerSession(ctx sdk.Ctx) int64                            { return s.bps }
-func (s *stubPos) StakeDenom(ctx sdk.Ctx) string                                 { return "upokt" }
-func (s *stubPos) MaxChains(ctx sdk.Ctx) int64                                   { return s.maxChains }
-func (s *stubPos) GetRewardCost(ctx sdk.Ctx) sdk.BigInt                          { return sdk.ZeroInt() }
+func (s *stubPos) JailValidator(ctx sdk.Ctx, addr sdk.Address)                {}
+func (s *stubPos) AllValidators(ctx sdk.Ctx) []nodesexported.ValidatorI       { return nil }
+func (s *stubPos) GetStakedValidators(ctx sdk.Ctx) []nodesexported.ValidatorI { return nil }
+func (s *stubPos) BlocksPerSession(ctx sdk.Ctx) int64                         { return s.bps }
+func (s *stubPos) StakeDenom(ctx sdk.Ctx) string                              { return "upokt" }
+func (s *stubPos) MaxChains(ctx sdk.Ctx) int64                                { return s.maxChains }
+func (s *stubPos) GetRewardCost(ctx sdk.Ctx) sdk.BigInt                       { return sdk.ZeroInt() }
 func (s *stubPos) GetValidatorsByChain(ctx sdk.Ctx, networkID string) ([]sdk.Address, int) {
 	l := s.byChain[networkID]
+	if s.startHeight != 0 && ctx.BlockHeight() != s.startHeight {
+		l = s.byChainLater[networkID]
+	}
 	return append([]sdk.Address(nil), l...), len(l)
 }
 
@@ -81,9 +93,9 @@ func (s *stubApps) Application(ctx sdk.Ctx, addr sdk.Address) appexported.Applic
 	return a
 }
 func (s *stubApps) AllApplications(ctx sdk.Ctx) []appexported.ApplicationI { return nil }
-func (s *stubApps) TotalTokens(ctx sdk.Ctx) sdk.BigInt                      { return sdk.ZeroInt() }
-func (s *stubApps) JailApplication(ctx sdk.Ctx, addr sdk.Address)           {}
-func (s *stubApps) MaxChains(ctx sdk.Ctx) int64                             { return s.maxChains }
+func (s *stubApps) TotalTokens(ctx sdk.Ctx) sdk.BigInt                     { return sdk.ZeroInt() }
+func (s *stubApps) JailApplication(ctx sdk.Ctx, addr sdk.Address)          {}
+func (s *stubApps) MaxChains(ctx sdk.Ctx) int64                            { return s.maxChains }
 
 func mustPub(hexKey string) crypto.PublicKey {
 	pk, err := crypto.NewPublicKey(hexKey)
